@@ -232,7 +232,10 @@ def run_case(case):
             chunks = [s.narrow(ax, k * bs, bs) for k in range(n // bs)]
             for k in range(1, len(chunks)):
                 if torch.equal(chunks[0], chunks[k]) and float(chunks[0].std() if chunks[0].numel() > 1 else 1.0) > 0 and \
-                        bool(torch.isfinite(chunks[0]).all()) and float(chunks[0].abs().max()) < 1e30:     # (two draws overflowing to inf are equal)
+                        bool(torch.isfinite(chunks[0]).all()) and float(chunks[0].abs().max()) < 1e30 and \
+                        (kind != "flow" or (chunks[0].numel() >= 2 and chunks[0].unique().numel() == chunks[0].numel())):
+                    # (two draws overflowing to inf are equal; so are two draws a flow's declared clamp maps to the same value -
+                    #  LeakyReLU^-1 stretches by 100, the CompositeCDF logit clamps at -13.8155: for flows a block must hold >= 2 distinct values)
                     res.fail("duplicate_draws", site, "sample(%d, batch_size=%d): batch %d is identical to batch 0 (batches are not independent draws)" % (n, bs, k),
                              bs=case["bs"])
                     return res
